@@ -155,7 +155,7 @@ def encode_url(url_str: str) -> "URL":
         else:
             username = password = port = None
             host = netloc
-        if host is None:
+        if not host:
             if scheme in SCHEME_REQUIRES_HOST:
                 msg = (
                     "Invalid URL: host is required for "
